@@ -582,7 +582,7 @@ func vdRun(t *testing.T, c Case) kit.Verdict {
 					if first {
 						st.gotInv, st.invAt = true, now
 					}
-					st.invs = append(st.invs, vdInv{at: now, session: p.Sessions, phase: ph})
+					st.invs = append(st.invs, vdInv{at: now, session: p.SessionCount(), phase: ph})
 					mu.Unlock()
 					switch {
 					case first:
@@ -724,7 +724,7 @@ func vdRun(t *testing.T, c Case) kit.Verdict {
 			}
 			for i, p := range s.Peers {
 				if p.Connected() && addrs[p.Addr.String()] {
-					out[i] = p.Sessions
+					out[i] = p.SessionCount()
 				}
 			}
 			return out
